@@ -297,8 +297,18 @@ impl Driver {
     }
 
     pub fn detect(&mut self, bytes: &[u8], s: &NormalizerSettings) -> Vec<String> {
+        self.detect_cmd("DETECT", bytes, s)
+    }
+
+    /// the end-to-end model: mess, coherence, layers, Jaro and merge computed by the models too
+    pub fn detect_full(&mut self, bytes: &[u8], s: &NormalizerSettings) -> Vec<String> {
+        self.detect_cmd("DETECTFULL", bytes, s)
+    }
+
+    fn detect_cmd(&mut self, cmd: &str, bytes: &[u8], s: &NormalizerSettings) -> Vec<String> {
         self.send(&format!(
-            "DETECT {} {} {} {} {} {} {} {}",
+            "{} {} {} {} {} {} {} {} {}",
+            cmd,
             s.steps,
             s.chunk_size,
             fbits(s.threshold.0),
